@@ -9,13 +9,34 @@ INIT_STATE = {"w": {"last": 0, "stack": [], "pend": []}, "l": {"last": 0, "stack
               "r": {"last": 0, "stack": [], "pv": [], "pid": []}, "fr": []}
 
 
-def vectors(tier):
-    path, st = c.cached_tlc_file("vectors-" + tier, "MCVectors", [tier], {"VERIF_TIER": tier}, timeout=1800)
+def vectors(tier, vset="universe"):
+    path, st = c.cached_tlc_file(f"vectors-{vset}-{tier}", "MCVectors", [tier, vset],
+                                 {"VERIF_TIER": tier, "VERIF_SET": vset}, timeout=3600)
     return path, st
 
 
-def drive_vectors(tier):
-    vec, st = vectors(tier)
+def wire_cases(tier):
+    return c.cached_tlc_file("wire-" + tier, "MCWire", [tier], {"VERIF_TIER": tier}, timeout=1800)
+
+
+def drive_wire(tier):
+    path, st = wire_cases(tier)
+    out = os.path.join(c.OUT, f"wire_result-{tier}-{os.getpid()}.ndjson")
+    rc, o, dt = c.run([c.hbin("drive"), "wire", path, out], timeout=1800)
+    if rc != 0:
+        raise c.ToolError("drive wire failed:\n" + o[-3000:])
+    rows = c.read_ndjson(out)
+    os.remove(out)
+    summary = [r for r in rows if r["kind"] == "summary"][0]
+    mism = [r for r in rows if r["kind"] == "mismatch"]
+    for m in mism:
+        m["vkind"] = m.get("buf", "-")
+    sample = c.read_ndjson(path)[:3]
+    return summary, mism, st, sample
+
+
+def drive_vectors(tier, vset="universe"):
+    vec, st = vectors(tier, vset)
     out = os.path.join(c.OUT, f"vec_result-{tier}-{os.getpid()}.ndjson")
     rc, o, dt = c.run([c.hbin("drive"), "vectors", vec, out], timeout=1800)
     if rc != 0:
@@ -36,9 +57,11 @@ def drive_vectors(tier):
 
 
 def proto_model(tier):
-    """Exhaustive TLC run of the lock-step model; emits the transition table (cached by spec text)."""
-    cfg = "MCThriftProto.cfg" if tier == "quick" else "MCThriftProtoT.cfg"
-    key = c.spec_hash("proto-table", cfg)
+    """Exhaustive TLC run of the lock-step model; emits the transition table (cached by spec text).
+    The table (and the transition tour built from it) always comes from the quick constants; the
+    thorough tier additionally explores the larger constants exhaustively (no emission)."""
+    cfg = "MCThriftProto.cfg"
+    key = c.spec_hash("MCThriftProto", "proto-table", cfg)
     d = os.path.join(c.OUT, "cache", f"proto-{tier}-{key}")
     stats_p = os.path.join(d, "_stats.json")
     if os.path.exists(stats_p):
@@ -55,8 +78,24 @@ def proto_model(tier):
     return d, st
 
 
+def proto_model_big():
+    key = c.spec_hash("MCThriftProto", "proto-big")
+    p = os.path.join(c.OUT, "cache", f"proto-big-{key}.json")
+    if os.path.exists(p):
+        return json.load(open(p))
+    res = c.tlc("MCThriftProto", cfg="MCThriftProtoT.cfg", workers=8, timeout=3 * 3600, xmx="12g", tag="proto-big")
+    c.tlc_must_pass(res, "ThriftProto exhaustive (thorough constants)")
+    st = {"generated": res["generated"], "distinct": res["distinct"], "dt": res["dt"], "cfg": "MCThriftProtoT.cfg"}
+    json.dump(st, open(p, "w"))
+    return st
+
+
 def proto_walks(tier, seed):
     d, st = proto_model(tier)
+    if tier == "thorough":
+        big = proto_model_big()
+        st = dict(st)
+        st["thorough_model"] = big
     wp = os.path.join(d, f"_walks-{seed}.ndjson")
     meta = os.path.join(d, f"_walks-{seed}.json")
     if not os.path.exists(meta):
